@@ -132,6 +132,8 @@ def missing_internals() -> List[str]:
             for n in names:
                 need.setdefault(n, f)
     have = repo_internal_names(REPO)
+    from translate import renames
+    have |= set(renames.rename_map(REPO)[0])          # renamed, reachable through aliases
     return sorted(f"{n} (used by {need[n]})" for n in need if n not in have)
 
 
